@@ -5,26 +5,6 @@ Import ListNotations.
 Local Open Scope N_scope.
 
 (* ================= SingleProducerSequencer ================= *)
-(* The discipline of its one producer thread: counts >= 1, no claim that would block, publishes in claim order
-   (any number of claims may be outstanding).  [sp_wf s out l]: the operations l are well formed from model
-   state s with outstanding claims out. *)
-Fixpoint sp_wf (s : sp) (out : list (N * N)) (l : list sop) : bool :=
-  match l with
-  | [] => true
-  | o :: r =>
-      let '(s', x) := sp_step s o in
-      match o, x with
-      | SNext c, RClaim a b => (1 <=? c) && sp_wf s' (out ++ [(a, b)]) r
-      | SPublish lo hi, _ =>
-          match out with
-          | (a, b) :: out' => (a =? lo) && (b =? hi) && sp_wf s' out' r
-          | [] => false
-          end
-      | SGate _ _, _ => sp_wf s' out r
-      | _, _ => false
-      end
-  end.
-
 (* outstanding claims form a chain of consecutive non-empty ranges from [start] up to the next sequence to claim *)
 Fixpoint chain (start : N) (out : list (N * N)) (nextw : N) : Prop :=
   match out with
@@ -109,6 +89,7 @@ Proof.
     split; [reflexivity|]. split; [reflexivity|]. split; [exact Hlast|].
     exists (hi + 1). split; [exact Hch | cbn; lia].
   - (* gate *)
+    apply andb_true_iff in Hwf. destruct Hwf as [_ Hwf].
     cbn [sp_step] in Est. inversion Est; subst s' x. clear Est.
     cbn [check check_step sp_cursor]. rewrite Hcur, N.ltb_irrefl, Hout, Hlast.
     rewrite (bound_chain _ _ _ Hch), <- Hcs, N.ltb_irrefl. cbn [N.eqb].
